@@ -350,10 +350,18 @@ impl Value {
                             (format!("Incompatible units {} and {}.", unit2, unit), span).into(),
                         );
                     }
-                    if unit == unit2 || unit == &Unit::None || unit2 == &Unit::None {
-                        num.partial_cmp(num2)
+                    let num2 = if unit == unit2 || unit == &Unit::None || unit2 == &Unit::None {
+                        *num2
                     } else {
-                        num.partial_cmp(&num2.convert(unit2, unit))
+                        num2.convert(unit2, unit)
+                    };
+
+                    // numbers within the Sass tolerance of each other are equal for
+                    // `<`, `<=`, `>` and `>=` as well, not only for `==`
+                    if fuzzy_equals(num.0, num2.0) {
+                        Some(Ordering::Equal)
+                    } else {
+                        num.partial_cmp(&num2)
                     }
                 }
                 _ => {
